@@ -251,15 +251,15 @@ impl<T: El> Interp<T> {
     let kind = match op {
       "drain" => {
         argc(5)?;
-        let (a, b) = (script::bound(t[2])?, script::bound(t[3])?);
-        scoped(|| v.drain((a, b))).map(|it| Kind::Drain { it, src: i })
+        let rg = script::ScriptRange::parse(t[2], t[3])?;
+        scoped(|| v.drain(rg)).map(|it| Kind::Drain { it, src: i })
       }
       "splice" => {
         argc(6)?;
-        let (a, b, s) = (script::bound(t[2])?, script::bound(t[3])?, It::parse(t[4])?);
+        let (rg, s) = (script::ScriptRange::parse(t[2], t[3])?, It::parse(t[4])?);
         self.room(s.items.iter().flatten().count())?;
         let si = ScriptIter::<T>::new(s);
-        scoped(|| v.splice((a, b), si)).map(|it| Kind::Splice { it, src: i })
+        scoped(|| v.splice(rg, si)).map(|it| Kind::Splice { it, src: i })
       }
       "drain_filter" => {
         argc(4)?;
